@@ -56,6 +56,20 @@ func (core *JApiCore) drainCurrentScanner() *jerr.JApiError {
 
 // simply decides which function to call based on lexeme type
 func (core *JApiCore) next(lexeme scanner.Lexeme) *jerr.JApiError {
+	if core.currentDirective == nil {
+		// There is no directive this lexeme could belong to (i.e. at the very
+		// beginning of a file, after a closing parenthesis or after the file
+		// name of the INCLUDE directive).
+		switch lexeme.Type() { //nolint:exhaustive // Other lexemes are handled below.
+		case scanner.Parameter:
+			return core.japiError(fmt.Sprintf("%s %q", jerr.IncorrectParameter, lexeme.Value().String()), lexeme.Begin())
+		case scanner.Annotation:
+			return core.japiError(jerr.AnnotationIsForbiddenForTheDirective, lexeme.Begin())
+		case scanner.Schema, scanner.Text, scanner.Json, scanner.Enum, scanner.ContextExplicitOpening:
+			return core.japiError(jerr.NoDirectiveForTheElement, lexeme.Begin())
+		}
+	}
+
 	switch lexeme.Type() {
 	case scanner.Keyword:
 		return core.processKeyword(lexeme)
